@@ -1,0 +1,95 @@
+//! Hooks for the external verification harness (feature `verif-hooks`, off by default).
+//!
+//! Nothing in here is reachable unless the feature is enabled *and* the harness installs a
+//! factory on the current thread; production behaviour is unchanged otherwise.
+
+use std::cell::RefCell;
+use std::fmt;
+use std::io::{self, Read, Write};
+use std::time::{Duration, Instant};
+
+use crate::streams::ConnectInfo;
+
+/// A byte transport supplied by the harness in place of a TCP (or established TLS) connection.
+pub trait Transport: Read + Write + Send + fmt::Debug {}
+
+impl<T: Read + Write + Send + fmt::Debug> Transport for T {}
+
+/// What `BaseStream::connect` was about to dial.
+#[derive(Debug, Clone)]
+pub struct DialInfo {
+    /// Scheme of the URL being connected to (the proxy's when a proxy is used).
+    pub scheme: String,
+    /// Host being connected to, as `url::Host` prints it.
+    pub host: String,
+    /// Effective port being connected to.
+    pub port: u16,
+    /// URL of the request this connection is for.
+    pub url: String,
+    /// Proxy URL, if a proxy was selected.
+    pub proxy: Option<String>,
+    /// Overall deadline of the request.
+    pub deadline: Option<Instant>,
+    /// Settings that reach the connection layer.
+    pub connect_timeout: Duration,
+    /// Read timeout from the settings.
+    pub read_timeout: Duration,
+    /// `accept_invalid_certs` from the settings of the request.
+    pub accept_invalid_certs: bool,
+    /// `accept_invalid_hostnames` from the settings of the request.
+    pub accept_invalid_hostnames: bool,
+    /// Number of root certificates added in the settings of the request.
+    pub root_certificates: usize,
+}
+
+type Factory = Box<dyn FnMut(&DialInfo) -> Option<io::Result<Box<dyn Transport>>>>;
+
+thread_local! {
+    static FACTORY: RefCell<Option<Factory>> = const { RefCell::new(None) };
+    static PENDING: RefCell<Option<io::Result<Box<dyn Transport>>>> = const { RefCell::new(None) };
+}
+
+/// Install a dial factory for the current thread. Returning `None` lets the real dial proceed.
+pub fn set_dial_factory(factory: Factory) {
+    FACTORY.with(|f| *f.borrow_mut() = Some(factory));
+}
+
+/// Remove the dial factory of the current thread.
+pub fn clear_dial_factory() {
+    FACTORY.with(|f| *f.borrow_mut() = None);
+    PENDING.with(|p| *p.borrow_mut() = None);
+}
+
+pub(crate) fn dial_prepare(scheme: &str, host: &str, port: u16, info: &ConnectInfo) -> bool {
+    let dial = DialInfo {
+        scheme: scheme.to_owned(),
+        host: host.to_owned(),
+        port,
+        url: info.url.as_str().to_owned(),
+        proxy: info.proxy.map(|u| u.as_str().to_owned()),
+        deadline: info.deadline,
+        connect_timeout: info.base_settings.connect_timeout,
+        read_timeout: info.base_settings.read_timeout,
+        accept_invalid_certs: info.base_settings.accept_invalid_certs,
+        accept_invalid_hostnames: info.base_settings.accept_invalid_hostnames,
+        root_certificates: info.base_settings.root_certificates.0.len(),
+    };
+    let res = FACTORY.with(|f| match f.borrow_mut().as_mut() {
+        Some(factory) => factory(&dial),
+        None => None,
+    });
+    match res {
+        Some(res) => {
+            PENDING.with(|p| *p.borrow_mut() = Some(res));
+            true
+        }
+        None => false,
+    }
+}
+
+pub(crate) fn dial_take() -> crate::Result<Box<dyn Transport>> {
+    let res = PENDING
+        .with(|p| p.borrow_mut().take())
+        .unwrap_or_else(|| Err(io::Error::new(io::ErrorKind::Other, "verif-hooks: no pending dial")));
+    Ok(res?)
+}
